@@ -2,7 +2,7 @@
 import ast
 
 from ..core import ir
-from .common import get_fn, kwarg
+from .common import get_fn, kwarg, merge_complementary
 from .c07 import guards_with_context
 from . import apirules
 
@@ -161,6 +161,7 @@ def as_memory_map(rep, idx):
     reg, nm, off = ('item', lid, (0,)), ('item', lid, (1,)), ('item', lid, (2,))
     env = {"reg": reg, "nm": nm, "off": off}
     adds = [(x, gen, ln) for x, gen, ln in c.calls_named("add_resource")]
+    adds = merge_complementary(c, adds)
     if len(adds) != 1:
         rep.bad("C17.3", site, "one add_resource per register", f"found {len(adds)} add_resource call(s)")
         return
